@@ -20,6 +20,8 @@ def run_suite(ctx, prop, jobs=8, timeout=1500):
     env["VERIF_SUITE_LOG"] = log
     env["PYTHONPATH"] = os.pathsep.join([REPO, VERIF, os.path.join(VERIF, ".deps")])
     env.pop("PYXFORM_VERIF", None)
+    if prop == "C03":
+        env["VERIF_SUITE_SUBST"] = "1"
     try:
         p = subprocess.run([PY, "-m", "pytest", "-q", "-p", "no:cacheprovider", "-p", "vlib.pytest_plugin", "--timeout=900",
                             "--continue-on-collection-errors", "-n", str(jobs)], cwd=REPO, env=env, capture_output=True, text=True, timeout=timeout)
@@ -43,6 +45,8 @@ def run_suite(ctx, prop, jobs=8, timeout=1500):
                     continue
                 n += 1
                 ctx.ctr("suite_conversions_judged")
+                if prop == "C03" and "subst_evals" in r:
+                    ctx.ctr("suite_subst_hook_evals_seen", 1)
                 ctx.case(sig=f"suite|{r['test']}|{r['chars']}|{r['pretty']}")
                 for key, what in r["v"][prop]:
                     ctx.viol(f"suite:{key}", f"[{r['test']}] {what}", {"test": r["test"], "xform_head": r.get("xform_head", "")[:2000], "klass": "suite"})
